@@ -238,7 +238,7 @@ def c09_one(res, g, rng):
         return
     if len(w) != n:
         res.fail("property", "C09: predict_win returned %d numbers for %d teams" % (len(w), n), inp); return
-    if any(not (-1e-15 <= x <= 1 + 1e-15) for x in w):
+    if any(not (0.0 <= x <= 1.0) for x in w):
         res.fail("property", "C09: predict_win value outside [0,1]: %r" % (w,), inp); return
     if abs(math.fsum(w) - 1) > 1e-9:
         res.fail("property", "C09: predict_win sums to %r" % math.fsum(w), inp)
@@ -310,8 +310,30 @@ def c09_item(res, item):
     corr_pred(res, [g], "correspondence", "C09", which=("win",))
 
 
+def c09_range_sweep(res, rng):
+    """many cheap lopsided games (a hopeless team in any slot, also the last): every entry must lie in [0, 1] exactly —
+    a Phi value is in [0,1] and a mean of such values cannot leave it, so no slack is granted"""
+    n_games = size(res, 120000, 120000)
+    models = {k: MODEL_CLS[k]() for k in KINDS}
+    for i in range(n_games):
+        kind = KINDS[i % 5]
+        m = models[kind]
+        n = rng.randint(3, 5)
+        teams = [[m.rating(float(rng.randint(5, 45)), float(rng.randint(1, 8)))] for _ in range(n)]
+        weak = [m.rating(float(rng.randint(-83, -60)), float(rng.randint(1, 3)))]     # |mu| <= 20 beta = 83.3
+        teams[rng.choice([n - 1, n - 1, rng.randrange(n)])] = weak
+        w = m.predict_win(teams)
+        res.evaluations += 1
+        if any(not (0.0 <= x <= 1.0) for x in w) or abs(math.fsum(w) - 1) > 1e-9:
+            g = make_game(kind, [[(p.mu, p.sigma) for p in t] for t in teams])
+            res.fail("property", "C09: predict_win value outside [0,1] (or sum off): %r" % (w,), dict(type="pred", game=g))
+            return
+    res.count("lopsided_range_sweep_games", n_games)
+
+
 def c09(res):
     rng = random.Random(res.seed)
+    c09_range_sweep(res, rng)
     games = []
     for _ in range(size(res, 700, 5000)):
         g = pred_game(rng)
